@@ -78,13 +78,13 @@ var c17Pins = []c17Pin{
 		}},
 	{c17FStaleKeys, "after Insert/Remove of an array element in a multi-chunk document the re-chunking stops at the first old chunk boundary it meets and reuses the following chunks with their old keys, whose array indexes are now off by one; later operations seek by these keys (observed consequence: a later Set dropped ~900 bytes of the document)",
 		func(yield func(interface{}, ...c17Op) bool) {
-			for l := 20; l < 400; l++ {
-				n := 9000 / (2*l + 30)
-				a := make([]interface{}, n)
+			// root array of strings of irregular lengths; an element in the middle is removed
+			for l := 150; l < 700; l += 10 {
+				a := make([]interface{}, 40)
 				for i := range a {
-					a[i] = map[string]interface{}{"a": c17Pad(l), "b": []interface{}{c17Pad(l / 2), float64(i), []interface{}{c17Pad(l / 3)}}}
+					a[i] = fmt.Sprintf("%03d%s", i, c17Pad((i*i*37+l*13)%900+20))
 				}
-				if !yield(a, c17Op{Kind: "Remove", Path: "$[1]"}) || !yield(a, c17Op{Kind: "Insert", Path: "$[1]", Val: "x"}) {
+				if !yield(a, c17Op{Kind: "Remove", Path: "$[9]"}) || !yield(a, c17Op{Kind: "Insert", Path: "$[17]", Val: "x"}) {
 					return
 				}
 			}
